@@ -237,7 +237,7 @@ def build_supercell(proto_name, lattice, basis, numbers, M: np.ndarray, rng=None
 
 
 def crystal(rng: random.Random, max_N: int = 8, protos=None, allow_random=True, shuffle=True,
-            min_nlp: int = 1) -> Crystal:
+            min_nlp: int = 1, min_N: int = 2) -> Crystal:
     names = list(protos) if protos else list(PROTOTYPES)
     for _ in range(1000):
         if allow_random and rng.random() < 0.35:
@@ -252,6 +252,8 @@ def crystal(rng: random.Random, max_N: int = 8, protos=None, allow_random=True, 
         if max_det < min_nlp:
             continue
         det = rng.randint(min_nlp, max_det)
+        if nb * det < min_N:
+            continue
         Ms = hnf_matrices(det)
         M = rng.choice(Ms)
         shift = [rng.choice([0.0, 0.0, 0.013, 0.5, 0.25]) for _ in range(3)] if rng.random() < 0.3 else None
